@@ -28,6 +28,7 @@ type c07Sc struct {
 	At   string
 	// inst
 	Shape string
+	Via   string
 }
 
 type c07Case struct {
@@ -161,16 +162,26 @@ func c07VisBatch(nm c07Names, idx []int, cases []c07Case) string {
 	return sb.String()
 }
 
-var c07TypeName = map[string]string{"int": "int", "string": "string", "array": "array", "D": "D0", "I": "I0", "?int": "?int", "int|string": "int|string", "?D": "?D0"}
-var c07Default = map[string]string{"int": "0", "string": `""`, "array": "[]", "?int": "null", "int|string": "0", "?D": "null"}
+var c07TypeName = map[string]string{"int": "int", "string": "string", "array": "array", "D": "D0", "I": "I0", "J": "J0", "?int": "?int", "int|string": "int|string", "?D": "?D0", "?I": "?I0"}
+var c07Default = map[string]string{"int": "0", "string": `""`, "array": "[]", "?int": "null", "int|string": "0", "?D": "null", "?I": "null"}
 var c07Value = map[string]string{"int": "5", "string": `"s"`, "float": "1.5", "bool": "true", "null": "null", "array": "[1]",
-	"objD": "new D0()", "objS": "new S0()", "objX": "new X0()", "objImpl": "new Impl0()"}
+	"objD": "new D0()", "objS": "new S0()", "objX": "new X0()", "objImpl": "new Impl0()",
+	"objImplSub": "new ImplSub0()", "objJImpl": "new JImpl0()", "objJImplSub": "new JImplSub0()"}
 
-const c07TypeFixture = `interface I0 { function im(); }
+const c07TypeFixture = `interface J0 { function jm(); }
+interface I0 extends J0 { function im(); }
 class D0 { }
 class S0 extends D0 { }
 class X0 { }
-class Impl0 implements I0 { function im() { return 1; } }
+class Impl0 implements I0 {
+  function im() { return 1; }
+  function jm() { return 2; }
+}
+class ImplSub0 extends Impl0 { }
+class JImpl0 implements J0 {
+  function jm() { return 3; }
+}
+class JImplSub0 extends JImpl0 { }
 `
 
 func c07TypeBatch(idx []int, cases []c07Case) string {
@@ -225,7 +236,7 @@ func c07TypeBatch(idx []int, cases []c07Case) string {
 	return c07TypeFixture + strings.Join(decl, "\n") + "\n" + strings.Join(top, "\n") + "\necho \"\\nEND\\n\";\n"
 }
 
-func c07InstScript(shape string, pfx string) string {
+func c07InstScript(shape, via string, pfx string) string {
 	P := func(s string) string { return strings.ReplaceAll(s, "@", pfx) }
 	decl := map[string]string{
 		"concrete":                            "class @C { }",
@@ -245,7 +256,20 @@ func c07InstScript(shape string, pfx string) string {
 		"implements-interface":                "interface @I {\n  public function m();\n}\nclass @C implements @I {\n  public function m() { return 1; }\n}",
 		"inherits-interface-method":           "interface @I {\n  public function m();\n}\nclass @P {\n  public function m() { return 1; }\n}\nclass @C extends @P implements @I { }",
 	}[shape]
-	return P(decl + "\necho \"START\\n\";\ntry { $o = new @C(); echo \"K|ok:\", get_class($o), \"\\n\"; } catch (\\Throwable $e) { echo \"K|denied:\", get_class($e), \"\\n\"; }\necho \"END\\n\";\n")
+	newExpr := "new @C()"
+	switch via {
+	case "varname":
+		newExpr = "new $cn()"
+	case "expr":
+		newExpr = "new (\"@\" . \"C\")()"
+	case "self", "static":
+		// a static factory inside the class under test
+		at := strings.Index(decl, "class @C")
+		br := at + strings.Index(decl[at:], "{")
+		decl = decl[:br+1] + "\n  public static function mk() { return new " + via + "(); }\n" + decl[br+1:]
+		newExpr = "@C::mk()"
+	}
+	return P(decl + "\n$cn = \"@C\";\necho \"START\\n\";\ntry { $o = " + newExpr + "; echo \"K|ok:\", get_class($o), \"\\n\"; } catch (\\Throwable $e) { echo \"K|denied:\", get_class($e), \"\\n\"; }\necho \"END\\n\";\n")
 }
 
 type c07Obs struct {
@@ -326,7 +350,7 @@ func C07(c *Ctx) *kf.Report {
 	rep := &kf.Report{Property: "C07", Level: "model_checking", Coverage: map[string]any{}}
 	rep.Assumptions = []string{
 		"fixture hierarchy D <- [M <-] S <- G plus unrelated X; class names and the optional middle class vary with VERIF_SEED; every case gets its own member so that cases do not interfere",
-		"an access the reference allows but the interpreter refuses (unsupported path) is not a violation of the property; it is counted in coverage.allowed_but_denied, and the run is an infrastructure error if more than a third of the allowed cases are refused (vacuity guard)",
+		"a member access (aspect vis) the reference allows but the interpreter refuses (unsupported path) is not a violation of the property, which only says where a member is NOT usable; a value of the declared type that is rejected, or an instantiable class that is refused, is a violation; refused member accesses are counted in coverage.allowed_but_denied, and the run is an infrastructure error if more than a third of the allowed cases are refused (vacuity guard)",
 		"'accepts exactly the values of that type' is read without coercion: an accepted value must arrive === the value passed",
 	}
 	var cases []c07Case
@@ -369,7 +393,7 @@ func C07(c *Ctx) *kf.Report {
 		case "type":
 			return Job{Src: c07TypeBatch(idx, cases)}
 		}
-		return Job{Src: c07InstScript(cases[idx[0]].Sc.Shape, fmt.Sprintf("Q%d", seed%5))}
+		return Job{Src: c07InstScript(cases[idx[0]].Sc.Shape, cases[idx[0]].Sc.Via, fmt.Sprintf("Q%d", seed%5))}
 	}
 	batch := func(asp string, size int, seed int64) {
 		var cur []int
@@ -445,7 +469,7 @@ func C07(c *Ctx) *kf.Report {
 				id = fmt.Sprintf("C07/type/at=%s/type=%s/val=%s", k.Sc.At, strings.ReplaceAll(k.Sc.Type, "?", "nullable-"), k.Sc.Val)
 				o = c07ParseType(r.Out, i, k)
 			case "inst":
-				id = "C07/inst/shape=" + k.Sc.Shape
+				id = "C07/inst/shape=" + k.Sc.Shape + "/via=" + k.Sc.Via
 				o.verdict = "none"
 				for _, l := range strings.Split(r.Out, "\n") {
 					if strings.HasPrefix(l, "K|ok") {
@@ -470,6 +494,9 @@ func C07(c *Ctx) *kf.Report {
 					allowedRef++
 					allowedDenied++
 					overDenied = append(overDenied, id+" ("+why+")")
+					if k.Aspect != "vis" {
+						rep.Add(kf.Mismatch{ID: id, Expected: "accepted", Observed: "the script stopped: " + why, ObsKey: "rejected", Input: jobs2[ji].Src})
+					}
 					continue
 				}
 				deniedRef++
@@ -484,6 +511,11 @@ func C07(c *Ctx) *kf.Report {
 				if o.verdict == "denied" {
 					allowedDenied++
 					overDenied = append(overDenied, id+" ("+o.detail+")")
+					if k.Aspect != "vis" {
+						// "accepts exactly the values of that type": a value of the type must pass the boundary,
+						// and an instantiable class must be instantiated
+						rep.Add(kf.Mismatch{ID: id, Expected: "accepted", Observed: "rejected: " + o.detail, ObsKey: "rejected", Input: jobs2[ji].Src})
+					}
 				} else if o.wrong {
 					// the access was allowed, which is all C07 prescribes; what it yields is C08's / C03's business
 					wrongValue = append(wrongValue, id+" ("+o.detail+")")
@@ -520,7 +552,7 @@ func C07(c *Ctx) *kf.Report {
 	rep.Coverage["allowed_with_unexpected_value"] = firstN(dedupe(wrongValue), 40)
 	rep.Coverage["hierarchy_variants"] = len(seeds)
 	rep.Coverage["exhaustive"] = true
-	rep.Coverage["rule"] = "every initial state of Access.tla for the three aspects: (kind x modifier x static x op x path x site x object class) filtered by VisValid, (8 declared types x 10 value kinds x 10 boundaries), 16 instantiability shapes; each is rendered into a class fixture (names / middle class vary with the seed) and run; non-trivial = cases the reference denies"
+	rep.Coverage["rule"] = "every initial state of Access.tla for the three aspects: (kind x modifier x static x op x path x site x object class) filtered by VisValid, (10 declared types incl. an interface and its parent interface x 13 value kinds incl. classes that implement directly / through a parent class / through a parent interface x 10 boundaries), 16 instantiability shapes x 5 ways of naming the class (literal, variable, expression, self, static); each is rendered into a class fixture (names / middle class vary with the seed) and run; non-trivial = cases the reference denies"
 	if len(jobs2) > 0 {
 		rep.Coverage["samples"] = []any{tailStr(jobs2[0].Src, 1500)}
 	}
